@@ -32,6 +32,12 @@ def n_cases(tier):
 
 
 def one_case(rng, tier):
+    if rng.random() < 0.3:
+        from .. import aprogs
+        g = aprogs.AGen(rng, async_ops=aprogs.LOSSLESS_ASYNC + ['timed_window_unique'], max_nodes=7)
+        prog = g.program(min_async=1)
+        return {'family': 'async', 'prog': prog, 'producers': g.producers(prog, max_total=18, n_md=(0, 1, 1, 2)),
+                'awaiting': rng.random() < 0.6, 'inputs': [], 'mode': 'vloop'}
     g = progs.Gen(rng, max_nodes=12 if tier == 'thorough' else 10)
     prog = g.program()
     inputs = g.inputs(prog, max_len=40 if tier == 'thorough' else 25)
@@ -39,7 +45,37 @@ def one_case(rng, tier):
     return {'prog': prog, 'inputs': inputs, 'mode': mode}
 
 
+def check_async(case, counters, sets):
+    from .. import asyncrun
+    ar = asyncrun.run_async(case)
+    if ar.stop in ('iter-cap', 'vt-cap', 'watchdog'):
+        return None, []
+    V, C = asyncrun.local_checks(case, ar, check_md=True)
+    viols, seen = [], set()
+    for clause, op, detail in V:
+        if clause != 'metadata':
+            continue            # value-level differences are C02's business
+        key = 'C10:metadata@%s(async)' % op
+        if key not in seen:
+            seen.add(key)
+            viols.append({'key': key, 'what': 'node %s: metadata of an output is not the metadata of the inputs that '
+                          'contributed to it: %s' % (detail.get('node'), detail), 'case': case})
+    n = sum(1 for e in ar.log.ev if e[2] == 'OUT')
+    counters['metadata_lists_compared'] = counters.get('metadata_lists_compared', 0) + n
+    ne = sum(1 for e in ar.log.ev if e[2] == 'OUT' and e[5])
+    counters['nonempty_metadata_compared'] = counters.get('nonempty_metadata_compared', 0) + ne
+    counters['async_runs'] = counters.get('async_runs', 0) + 1
+    counters['events_observed'] = counters.get('events_observed', 0) + len(ar.log.ev)
+    for s_ in case['prog']['nodes']:
+        sets.setdefault('node_types_seen', set()).add(s_['op'] + ('+timeout' if asyncrun.is_async_partition(s_) else ''))
+    ar.nonempty = ne
+    ar.calls = [e for e in ar.log.ev if e[2] == 'START']
+    return ar, viols
+
+
 def check_case(case, counters, sets):
+    if case.get('family') == 'async':
+        return check_async(case, counters, sets)
     prog, inputs, mode = case['prog'], case['inputs'], case['mode']
     res = syncrun.run_case(prog, inputs, mode=mode, with_refs=True)
     if res.hung:
@@ -76,9 +112,9 @@ def run_shard(seed, tier, shard, nshards):
             continue
         nn = [s for s in case['prog']['nodes'] if s['op'] not in ('sink', 'sink_flush')]
         if len(nn) >= 3 and res.calls and res.nonempty:
-            out['keys'].append(progs.prog_key(case['prog'], [case['inputs'], case['mode']]))
+            out['keys'].append(progs.prog_key(case['prog'], [case['inputs'], case['mode'], case.get('producers')]))
         out['violations'].extend(viols)
-        if len(out['samples']) < 2 and len(nn) >= 4 and res.nonempty > 5:
+        if len(out['samples']) < 2 and len(nn) >= 4 and res.nonempty > 5 and case.get('family') != 'async':
             outs = syncrun.node_outs(res.log)
             nid = max(outs, key=lambda n: sum(len(md or []) for _, md in outs[n]))
             out['samples'].append({'program': [' '.join('%s=%s' % kv for kv in s.items() if kv[1] not in (None, [], {})) for s in case['prog']['nodes']],
